@@ -217,8 +217,8 @@ func addrOf(b []byte) (a [20]byte) {
 func TestC11_Ledger(t *testing.T) {
 	RunProp(t, Prop[LockCase]{
 		ID: "C11", Name: "ledger", Quick: 800, Thor: 12_000,
-		Gen: genLockCase("C11", 40),
-		Run: func(c LockCase) Outcome { return runLocking(c, "C11", checkC11, nil) },
+		Gen:  genLockCase("C11", 40),
+		Run:  func(c LockCase) Outcome { return runLocking(c, "C11", checkC11, nil) },
 		Rule: "configurations (1-4 genesis validators, MaxValidators 1-5, 1-3 tokens with weights incl. 0 and thresholds incl. 0, slash fractions from 1e-18 to 0.99, windows 3-8) x histories of 4-40 blocks of create/lock/unlock/claim/grant/weight/threshold requests, absences, evidence and time jumps with boundary-biased amounts (0, 1, dust, 1e18+-1, threshold+-1, 1e24); after every block the exported holdings and slashed totals must equal an exact integer ledger and locked = held + slashed + released must hold per token from observed quantities; non-trivial = a slashed validator is touched again, or an unlock larger than the holding; evaluations count blocks",
 	})
 }
@@ -499,8 +499,8 @@ func checkC13(w *lockWorld, o *Outcome) *Failure {
 func TestC13_ValidatorSet(t *testing.T) {
 	RunProp(t, Prop[LockCase]{
 		ID: "C13", Name: "valset", Quick: 960, Thor: 14_000,
-		Gen: genLockCase("C13", 40),
-		Run: func(c LockCase) Outcome { return runLocking(c, "C13", checkC13, nil) },
+		Gen:  genLockCase("C13", 40),
+		Run:  func(c LockCase) Outcome { return runLocking(c, "C13", checkC13, nil) },
 		Rule: "locking-world histories biased to joins/leaves at the MaxValidators boundary, ties, weight changes to and from 0, thresholds raised above holdings; every block's validator updates go through CometBFT's validateValidatorUpdates and ValidatorSet.UpdateWithChangeSet (H+2 pipeline) - any error or FinalizeBlock failure is a violation - and the accumulated set must have <= K members, each recorded active with exactly its recorded positive power, no recorded-active non-member, and no pending candidate with positive power outranking a member (power, then address); non-trivial = a block whose updates contain both an addition and a removal, a tie at the cut, or a zero-power candidate",
 	})
 }
@@ -584,8 +584,8 @@ func newC14() lockChecker {
 func TestC14_Punishment(t *testing.T) {
 	RunProp(t, Prop[LockCase]{
 		ID: "C14", Name: "punish", Quick: 960, Thor: 14_000,
-		Gen: genLockCase("C14", 50),
-		Run: func(c LockCase) Outcome { return runLocking(c, "C14", newC14(), nil) },
+		Gen:  genLockCase("C14", 50),
+		Run:  func(c LockCase) Outcome { return runLocking(c, "C14", newC14(), nil) },
 		Rule: "locking-world histories biased to absences (1-3 validators per block, never more than a third of the voting power) and evidence with (age-blocks, age-time) in {below, at, above}^2 of short consensus limits, followed by lock/unlock/weight/threshold requests aimed at punished validators and time jumps around the jail time; reference: per-validator signing-window counter, demotion + slash of floor(fraction*amount) (all if 0) exactly once, jail-until, re-entry only after the jail time with every threshold met, tombstone for evidence inside either age limit and never any power/membership again; compared after every block with status, window counters, holdings, slashed totals, power and set membership; non-trivial = a demotion or tombstone, or >= 5 later operations on a punished validator",
 	})
 }
@@ -724,7 +724,6 @@ func newC15() (lockChecker, lockChecker) {
 	}
 	return check, final
 }
-
 
 func TestC15_Unlocks(t *testing.T) {
 	RunProp(t, Prop[LockCase]{
